@@ -4,9 +4,10 @@
 (* Every line names the access (path, the address used, value written or      *)
 (* returned, outcome) and carries the COMPLETE list of read-backs that the     *)
 (* access changed among all 0x800 offsets ("ch") and of the changes in the     *)
-(* state no register shows ("hid": timer counters, all eight DMA channels,     *)
-(* FIFO lengths, raw ICU vector words).  The trace action applies the          *)
-(* specification operator to the specification state and requires              *)
+(* state behind the registers, read directly from the objects ("hid": timer    *)
+(* fields and counters, all eight DMA channels, MIU, AHBM, ICU, BTDMP fields). *)
+(* The trace action applies the specification operator to the specification    *)
+(* state and requires                                                          *)
 (*   - the same offset decoded from the address, the same outcome, the same    *)
 (*     returned value,                                                         *)
 (*   - exactly the same set of changed read-backs with the same new values     *)
@@ -34,14 +35,32 @@ SeqSet(q)  == { q[i] : i \in 1..Len(q) }
 HidFields == << "addr_src_low", "addr_src_high", "addr_dst_low", "addr_dst_high", "size0", "size1", "size2",
                 "src_step0", "dst_step0", "src_step1", "dst_step1", "src_step2", "dst_step2",
                 "src_space", "dst_space", "dword_mode", "y", "z" >>
+TimerHid == << "scale", "mode", "pause", "mu", "start_low", "start_high", "ctr_low", "ctr_high" >>
+MiuHid   == << K("miu", 0, "x_page"), K("miu", 0, "y_page"), K("miu", 0, "z_page"), K("miu", 0, "page_mode"),
+               K("miu", 0, "mmio_base"), K("miu", 0, "x_size"), K("miu", 1, "x_size"), K("miu", 0, "y_size"),
+               K("miu", 1, "y_size") >>
+AhbmHid  == << "burst", "unit", "dir", "dmach" >>
+BtHid    == << "clock", "enable", "empty", "full" >>
 HidIds == (0..3) \cup { 16 + 32 * c + f : c \in 0..7, f \in 0..17 } \cup { 300, 301 } \cup (400..447)
+          \cup { 500 + 10 * i + f : i \in 0..1, f \in 0..7 } \cup (520..528) \cup (530..542) \cup { 545, 546 }
+          \cup (550..554) \cup { 560 + 5 * i + f : i \in 0..1, f \in 0..3 }
 HidKey == [id \in HidIds |->
              CASE id <= 3   -> TK(id \div 2, IF id % 2 = 0 THEN "cnt_hi" ELSE "cnt_lo")
                [] id <= 271 -> <<"dma", (id - 16) \div 32, HidFields[((id - 16) % 32) + 1]>>
                [] id <= 301 -> K("bt", id - 300, "qlen")
                [] id <= 415 -> K("icu", id - 400, "vlow")
                [] id <= 431 -> K("icu", id - 416, "vhigh")
-               [] OTHER     -> K("icu", id - 432, "vctx")]
+               [] id <= 447 -> K("icu", id - 432, "vctx")
+               [] id <= 517 -> TK((id - 500) \div 10, TimerHid[((id - 500) % 10) + 1])
+               [] id <= 528 -> MiuHid[id - 519]
+               [] id <= 541 -> K("ahbm", (id - 530) \div 4, AhbmHid[((id - 530) % 4) + 1])
+               [] id = 542  -> K("ahbm", 0, "busy")
+               [] id = 545  -> K("dmac", 0, "enable")
+               [] id = 546  -> ActiveK
+               [] id = 550  -> ReqK
+               [] id <= 553 -> K("icu", id - 551, "enable")
+               [] id = 554  -> K("icu", 0, "venable")
+               [] OTHER     -> K("bt", (id - 560) \div 5, BtHid[((id - 560) % 5) + 1])]
 
 Pure == AllOffs \ CmdOffs                       \* offsets the recorder reads back after every event
 DocPure == DocOffs \ CmdOffs
